@@ -89,7 +89,7 @@ def confirm(wt, mdir):
     return 0 if ok else 1
 
 
-def try_(mdir, props, tier, worktree=None):
+def try_(mdir, props, tier, worktree=None, only=None):
     """worktree=None: apply to /repo itself (the registered way).  worktree=<dir>: apply there and run the
     same checks with KTVERIF_REPO=<dir> (own caches), so several mutants can be tried concurrently."""
     patch = os.path.join(mdir, "patch.diff")
@@ -107,7 +107,7 @@ def try_(mdir, props, tier, worktree=None):
     try:
         for p in props:
             t0 = time.time()
-            rc, out = sh("%sbin/check %s --tier %s" % (envp, p, tier), cwd=VERIF, timeout=7200)
+            rc, out = sh("%sbin/check %s --tier %s%s" % (envp, p, tier, (" --only " + only) if only else ""), cwd=VERIF, timeout=7200)
             sigs = sorted({l.split("sig=")[1].split(" ")[0] for l in out.splitlines() if l.startswith("VIOLATION") and "sig=" in l})
             first = next((l for l in out.splitlines() if l.startswith("VIOLATION")), "")
             err = [l for l in out.splitlines() if l.startswith("ERROR")]
@@ -117,7 +117,7 @@ def try_(mdir, props, tier, worktree=None):
                 print("   " + first[:400])
     finally:
         sh("git -C %s checkout -- ." % repo)
-    json.dump(results, open(os.path.join(mdir, "verif_result_%s.json" % tier), "w"), indent=1)
+    json.dump(results, open(os.path.join(mdir, "verif_result_%s%s.json" % (tier, ("_" + only.replace(".", "_")) if only else "")), "w"), indent=1)
     return 0
 
 
@@ -161,7 +161,12 @@ def main():
             i = rest.index("--worktree")
             wt = rest[i + 1]
             rest = rest[:i] + rest[i + 2:]
-        return try_(a[1], rest, tier, wt)
+        only = None
+        if "--only" in rest:
+            i = rest.index("--only")
+            only = rest[i + 1]
+            rest = rest[:i] + rest[i + 2:]
+        return try_(a[1], rest, tier, wt, only)
     if a[0] == "adopt":
         return adopt(a[1], a[2], a[3], a[4])
     print(__doc__)
